@@ -159,16 +159,26 @@ type c13pass struct{}
 
 func (c13pass) GetAuditorAttributeSignatures(string) ([]audittypes.Provider, error) { return nil, nil }
 
+// the order's group: two resource records with different prices and replica counts, so the
+// maximum price the chain agreed is the sum over records of unit price x count (10x1 + 30x3);
+// max must be that sum (the harness states it independently of GroupSpec.Price)
 func c13spec(max sdk.Int) dtypes.GroupSpec {
-	return dtypes.GroupSpec{Name: "g", Resources: []dtypes.Resource{{
-		Resources: atypes.ResourceUnits{
-			CPU:     &atypes.CPU{Units: atypes.NewResourceValue(100)},
-			Memory:  &atypes.Memory{Quantity: atypes.NewResourceValue(64 << 20)},
-			Storage: &atypes.Storage{Quantity: atypes.NewResourceValue(64 << 20)},
-		},
-		Count: 1,
-		Price: sdk.Coin{Denom: "uakt", Amount: max},
-	}}}
+	unit := func(cpu uint64, count uint32, price int64) dtypes.Resource {
+		return dtypes.Resource{
+			Resources: atypes.ResourceUnits{
+				CPU:     &atypes.CPU{Units: atypes.NewResourceValue(cpu)},
+				Memory:  &atypes.Memory{Quantity: atypes.NewResourceValue(64 << 20)},
+				Storage: &atypes.Storage{Quantity: atypes.NewResourceValue(64 << 20)},
+			},
+			Count: count,
+			Price: sdk.Coin{Denom: "uakt", Amount: sdk.NewInt(price)},
+		}
+	}
+	rest := max.SubRaw(10).QuoRaw(3).Int64()
+	if 10+3*rest != max.Int64() {
+		panic("c13spec: max must be 10 + 3k")
+	}
+	return dtypes.GroupSpec{Name: "g", Resources: []dtypes.Resource{unit(100, 1, 10), unit(50, 3, rest)}}
 }
 
 // event kinds: 0 lease-created for this order & this provider (won), 1 lease-created for this group
